@@ -23,4 +23,43 @@ theorem nonInteger_spec_core (c tol : ℚ) :
   · rintro ⟨n, hn⟩
     exact le_trans (round_le c n) hn
 
+/-- the gate lets a structure through to `repair_heavy` exactly when something is missing and the
+missing fraction is at most one tenth -/
+theorem repairGate_spec_core (heavy missing : Nat) (lig : Bool) :
+    repairGate heavy missing lig = Gate.repair ↔
+      0 < heavy ∧ 0 < missing ∧ (missing : ℚ) / (heavy : ℚ) ≤ 1 / 10 := by
+  unfold repairGate
+  by_cases hh : heavy = 0
+  · subst hh
+    cases lig <;> simp
+  · have hpos : 0 < heavy := Nat.pos_of_ne_zero hh
+    have hq : (0 : ℚ) < (heavy : ℚ) := by exact_mod_cast hpos
+    rw [if_neg hh]
+    by_cases hm : missing = 0
+    · subst hm
+      simp
+    · have hmpos : 0 < missing := Nat.pos_of_ne_zero hm
+      rw [if_neg hm]
+      have key : (missing : ℚ) / (heavy : ℚ) ≤ 1 / 10 ↔ 10 * missing ≤ heavy := by
+        rw [div_le_iff₀ hq]
+        constructor
+        · intro h
+          have h2 : (10 : ℚ) * (missing : ℚ) ≤ (heavy : ℚ) := by linarith
+          exact_mod_cast h2
+        · intro h
+          have h2 : (10 : ℚ) * (missing : ℚ) ≤ (heavy : ℚ) := by exact_mod_cast h
+          linarith
+      by_cases hgt : 10 * missing > heavy
+      · rw [if_pos hgt]
+        constructor
+        · intro h; cases h
+        · rintro ⟨_, _, h3⟩
+          have := key.mp h3
+          omega
+      · rw [if_neg hgt]
+        constructor
+        · intro _
+          exact ⟨hpos, hmpos, key.mpr (by omega)⟩
+        · intro _; rfl
+
 end P2P.Proofs.ChargeGuard
